@@ -17,13 +17,15 @@ RULE = (
     "cases = (problem, method, callback kind, k, exception class[, second fault]) : for each of the problems {LP, bounded "
     "NLP, constrained QP, constrained non-quadratic problem with lazily compiled Hessian, model that triggers the "
     "SLSQP->trust-constr retry} a fault-free run counts the evaluations K of every callback kind (objective, "
-    "gradient, each constraint function, each constraint Jacobian, Hessian); then for EVERY k <= K of every kind "
+    "gradient, each constraint function, each constraint Jacobian, Hessian) and the calls K of every CACHE-CONSTRUCTION "
+    "step (compile_expression, compile_jacobian, compile_hessian, symbolic gradient, LP extractor steps: crash points "
+    "inside the construction of what the problem caches); then for EVERY k <= K of every kind "
     "(quick: k in {1,2,3, middle, K}), for the solver entry itself (back-end raising before any evaluation) and for "
     "linprog raising, and for every exception class in {ValueError, FloatingPointError, MemoryError, "
     "KeyboardInterrupt}, the faulted solve is run on a fresh replica; deviation bound 2 in the thorough tier (second "
     "fault in the next solve, possibly under another method).  Also increased_recursion_limit with a body raising "
     "each class at nesting depth 1 and 2, and a real RecursionError from a deep tree.  Oracle per case: the call "
-    "returns a FAILED Solution or propagates the injected exception object; afterwards warnings.showwarning is the "
+    "returns a FAILED Solution or propagates the injected exception object (or an error raised from it); afterwards warnings.showwarning is the "
     "object installed before, sys.getrecursionlimit() is unchanged, and solving the SAME problem object again (same "
     "method and every other method of the menu) gives the status / objective / values and hands the back-end the same "
     "model as a never-faulted replica.  distinct = (problem, method, kind, k, class) tuples, K measured per run."
@@ -93,6 +95,35 @@ class Counter:
 RETRY_FIRST_ANSWER = {"on": False}
 
 
+class BuildSeam:
+    """Crash points INSIDE cache construction: while a solve runs, the functions optyx calls to build what it caches
+    (compile_expression, compile_jacobian, compile_hessian, symbolic gradient, the LP extractor's three steps) go
+    through the fault counter (they are looked up on their modules at call time, so replacing the module attribute
+    intercepts every call - no source change).  kind = 'build:<function>'; k counts calls within one solve."""
+
+    def __init__(self, counter):
+        self.counter = counter
+        self.saved = []
+
+    def __enter__(self):
+        from optyx.core import compiler, autodiff
+        from optyx import analysis
+
+        targets = [(compiler, "compile_expression"), (autodiff, "compile_jacobian"), (autodiff, "compile_hessian"),
+                   (autodiff, "gradient"), (analysis.LinearProgramExtractor, "extract_objective"),
+                   (analysis.LinearProgramExtractor, "extract_constraints"), (analysis.LinearProgramExtractor, "extract_bounds")]
+        for owner, name in targets:
+            orig = owner.__dict__[name] if isinstance(owner, type) else getattr(owner, name)
+            self.saved.append((owner, name, orig))
+            setattr(owner, name, self.counter.wrap("build:" + name, orig))
+        return self
+
+    def __exit__(self, *exc):
+        for owner, name, orig in self.saved:
+            setattr(owner, name, orig)
+        return False
+
+
 def faulty_backend(counter, entry_fault=None):
     """script entry for Seam: wrap the callables of each minimize call / raise at solver entry."""
     state = {"calls": 0}
@@ -127,8 +158,9 @@ def solve_with(P, method, counter, entry_fault=None, retry=False):
     kw = {} if method == "auto" else {"method": method}
     RETRY_FIRST_ANSWER["on"] = retry
     h = faulty_backend(counter, entry_fault)
-    with Seam(script=[h] * 6, passthrough=False) as s:
-        sol = P.solve(**kw)
+    with BuildSeam(counter):
+        with Seam(script=[h] * 6, passthrough=False) as s:
+            sol = P.solve(**kw)
     return sol, s
 
 
@@ -192,7 +224,11 @@ def check_fault(pname, method, faults, rep=None, want=None, followups=None):
             outcome = ("returned", sol.status.value)
         except BaseException as ex:
             outcome = ("propagated", type(ex).__name__)
-            if ex is not exc:
+            chain, seen_ = ex, set()
+            while chain is not None and chain is not exc and id(chain) not in seen_:
+                seen_.add(id(chain))
+                chain = chain.__cause__ or chain.__context__
+            if chain is not exc:       # neither the injected exception nor an error raised from it
                 fails.add("foreign-exception-propagated", method=m, callback=kind, k=k, cls=cname, got=repr(ex)[:200])
         if rep:
             rep.transitions += 1
